@@ -168,7 +168,7 @@ def _run_tier(mod, prop: str, tier: str, seed: int, t0: float) -> int:
             continue
         unknown.append(b)
     if unknown:
-        if getattr(mod, "SHRINK", True):
+        if getattr(mod, "SHRINK", True) and os.environ.get("VERIF_NO_SHRINK") != "1":  # VERIF_NO_SHRINK: diagnostics (keep the drawn case)
             try:
                 shrunk = runner.shrink_buckets(mod.__name__, unknown, shrink_budget)
             except Exception:
